@@ -164,6 +164,16 @@ def corpus():
     "01000100e0000001") + bytes.fromhex("0a000005"))
   frames["igmp_v3_report_cut_source"] = mac + bytes.fromhex("0800") + ip4(2, bytes.fromhex("2200000000000001") + bytes.fromhex(
     "01000100e0000001") + bytes([255]))
+  # LLDP chassis / port ids of every subtype with id lengths around the sizes their printers expect (a MAC of 6 bytes,
+  # an IPv4 address of 1+4 bytes): the TLV length is attacker-controlled
+  def lldp_frame(ch_sub, ch_id, po_sub, po_id):
+    tlv = lambda t, body: bytes([(t << 1) | (len(body) >> 8), len(body) & 255]) + body
+    body = tlv(1, bytes([ch_sub]) + ch_id) + tlv(2, bytes([po_sub]) + po_id) + tlv(3, bytes([0, 120])) + tlv(0, b"")
+    return bytes.fromhex("0180c200000e") + bytes.fromhex("0a0b0c0d0e0f") + bytes.fromhex("88cc") + body
+  for sub in (1, 2, 3, 4, 5, 6, 7):
+    for n in (0, 1, 4, 5, 6, 7):
+      frames["lldp_chassis_sub%d_len%d" % (sub, n)] = lldp_frame(sub, bytes(range(1, n + 1)), 3, bytes(6))
+      frames["lldp_port_sub%d_len%d" % (sub, n)] = lldp_frame(4, bytes(6), sub, bytes(range(1, n + 1)))
   dns = bytes([0, 5, 1, 0, 0, 1, 0, 0, 0, 0, 0, 0]) + b"\x07example\x03com\x00" + bytes([0, 1, 0, 1])
   frames["dns_raw"] = B.eth(0x800, B.ip(17, B.udp(5555, 53, dns))).pack()
   return frames
